@@ -604,8 +604,8 @@ Inv_C05_DeleteOnlyController ==
 Inv_C05_StoreEnforces ==
     (lw.valid /\ IsWrite(W.ev) /\ W.ev = "Delete" /\ ~W.dry /\ W.actor \notin {"env", "sim"} /\ W.pre.exists)
     => /\ ((W.args.hasUID /\ W.args.uid # W.pre.uid) \/ (W.args.hasRV /\ W.args.rv # W.pre.rv))
-            \* (a request whose response was lost - injected fault "after" - shows as Fault; its effect is what counts)
-            => ((W.res = "Conflict" \/ (W.res = "Fault" /\ W.args.lost)) /\ W.post = W.pre)
+            \* (an injected fault - request lost before it reached the server, or response lost - shows as Fault; its effect counts)
+            => ((W.res = "Conflict" \/ W.res = "Fault") /\ W.post = W.pre)
        /\ W.res = "ok" => ((W.args.hasUID => W.args.uid = W.pre.uid) /\ (W.args.hasRV => W.args.rv = W.pre.rv))
 
 \* whatever the interleaving: an object PKO deletes is controlled by the deleting owner at that instant
